@@ -125,6 +125,15 @@ class StoreFamily:
                 db[k] = x
                 ops.append(dict(op='store', coll=coll, call='update', arg=x))
                 exp.append(None)
+            elif c < 0.415:
+                # create with an id that exists: refused, the record stays what it was (on both back ends)
+                k = rng.choice(list(db))
+                x = rec(coll, rng, nid + 3000)
+                x['id'] = k
+                ops.append(dict(op='store', coll=coll, call='create', arg=x))
+                exp.append(None)
+                ops.append(dict(op='store', coll=coll, call='find', arg=k))
+                exp.append(('find', json.loads(json.dumps(db[k]))))
             elif c < 0.43:
                 # update of an id that does not exist (never created, or deleted before): changes nothing
                 x = rec(coll, rng, nid + 2000)
@@ -228,7 +237,7 @@ class StoreFamily:
         for op in c['scenarios'][0]['ops'][:upto]:
             if op['call'] == 'purge':
                 db.clear()
-            elif op['call'] == 'create' or (op['call'] == 'update' and op['arg']['id'] in db):
+            elif (op['call'] == 'create' and op['arg']['id'] not in db) or (op['call'] == 'update' and op['arg']['id'] in db):
                 db[op['arg']['id']] = op['arg']
             elif op['call'] == 'delete':
                 db.pop(op['arg'], None)
